@@ -25,6 +25,10 @@ type c09Op struct {
 	Flag   uint32 `json:"flag,omitempty"`
 	Kind   string `json:"kind,omitempty"`   // valid / unknown-name / bad-index / no-groups / oversize
 	Denied uint32 `json:"denied,omitempty"` // valid: bit i set => probe i answered errno
+	// nested-load: while the load on Thread is between its preparation and the installation, a second load (valid
+	// policy Denied2, same no_new_privs request, no flags) runs completely on Thread2
+	Thread2 int    `json:"thread2,omitempty"`
+	Denied2 uint32 `json:"denied2,omitempty"`
 }
 
 type c09Case struct {
@@ -38,6 +42,21 @@ func c09Policy(op c09Op) spec.Policy {
 	switch op.Kind {
 	case "valid":
 		g := spec.Group{Action: actErrno}
+		for i, n := range probeNames {
+			if op.Denied&(1<<uint(i)) != 0 {
+				g.Names = append(g.Names, n)
+			}
+		}
+		if len(g.Names) == 0 {
+			g.Names = []string{probeNames[0]}
+		}
+		p.Groups = []spec.Group{g}
+	case "allow-only", "log-only":
+		// a valid policy that denies nothing: it has to be installed like any other
+		g := spec.Group{Action: actAllow}
+		if op.Kind == "log-only" {
+			g.Action = actLog
+		}
 		for i, n := range probeNames {
 			if op.Denied&(1<<uint(i)) != 0 {
 				g.Names = append(g.Names, n)
@@ -61,6 +80,9 @@ func c09Policy(op c09Op) spec.Policy {
 
 func deniedVector(op c09Op) []bool {
 	v := make([]bool, len(probeNames))
+	if op.Kind == "allow-only" || op.Kind == "log-only" {
+		return v
+	}
 	if op.Kind == "oversize" {
 		v[0] = true // getppid
 		return v
@@ -85,7 +107,7 @@ func drawC09(t *rapid.T) c09Case {
 	}
 	n := rapid.IntRange(2, 12).Draw(t, "nops")
 	flags := []uint32{0, 0, 1, 1, 2, 3, 0x80, 0xfffffffe, 0x11}
-	kinds := []string{"valid", "valid", "valid", "valid", "unknown-name", "bad-index", "no-groups", "oversize"}
+	kinds := []string{"valid", "valid", "valid", "valid", "unknown-name", "bad-index", "no-groups", "oversize", "allow-only", "log-only"}
 	loadedNoTsync := map[int]bool{}
 	faulted := false
 	for i := 0; i < n; i++ {
@@ -97,6 +119,17 @@ func drawC09(t *rapid.T) c09Case {
 			faulted = true
 		case k == 0:
 			op = c09Op{Op: "supported", Thread: rapid.IntRange(0, c.Threads-1).Draw(t, "thread")}
+		case k == 9 && c.Threads >= 2:
+			// two loads of different policies on two threads, the second one running while the first is under way
+			op = c09Op{Op: "nested-load", Thread: rapid.IntRange(0, c.Threads-1).Draw(t, "thread"), NNP: rapid.IntRange(0, 3).Draw(t, "nnp") != 0,
+				Kind: "valid", Denied: uint32(rapid.IntRange(1, 63).Draw(t, "denied"))}
+			op.Thread2 = (op.Thread + rapid.IntRange(1, c.Threads-1).Draw(t, "thread2")) % c.Threads
+			op.Denied2 = op.Denied ^ uint32(rapid.IntRange(1, 63).Draw(t, "denied2"))
+			if op.Denied2 == 0 {
+				op.Denied2 = ^op.Denied & 63
+			}
+			loadedNoTsync[op.Thread] = true
+			loadedNoTsync[op.Thread2] = true
 		case k <= 2 && len(loadedNoTsync) >= 1 && c.Threads >= 2:
 			// aim at a refused thread-sync: some thread carries a filter of its own, sync from another thread
 			var other int
@@ -114,7 +147,7 @@ func drawC09(t *rapid.T) c09Case {
 			op = c09Op{Op: "load", Thread: rapid.IntRange(0, c.Threads-1).Draw(t, "thread"), NNP: rapid.IntRange(0, 3).Draw(t, "nnp") != 0,
 				Flag: flags[rapid.IntRange(0, len(flags)-1).Draw(t, "flag")], Kind: kinds[rapid.IntRange(0, len(kinds)-1).Draw(t, "kind")],
 				Denied: uint32(rapid.IntRange(1, 63).Draw(t, "denied"))}
-			if op.Kind == "valid" && op.Flag&1 == 0 && op.Flag < 4 {
+			if (op.Kind == "valid" || op.Kind == "allow-only" || op.Kind == "log-only") && op.Flag&1 == 0 && op.Flag < 4 {
 				loadedNoTsync[op.Thread] = true
 			}
 		}
@@ -167,6 +200,11 @@ func checkC09(raw json.RawMessage) (ev.Result, error) {
 			}
 			opAt[len(opAt)-1] = len(job.Steps)
 			job.Steps = append(job.Steps, kjob.Step{Op: "outer-enosys-thread", Thread: 0})
+		case "nested-load":
+			in := op
+			in.Denied = op.Denied2
+			job.Steps = append(job.Steps, kjob.Step{Op: "nested-load", Thread: op.Thread, Filter: &kjob.FilterSpec{Policy: c09Policy(op), NNP: op.NNP, HostArch: true},
+				Inner: &kjob.Step{Op: "load", Thread: op.Thread2, Filter: &kjob.FilterSpec{Policy: c09Policy(in), NNP: op.NNP, HostArch: true}}})
 		default:
 			job.Steps = append(job.Steps, kjob.Step{Op: "load", Thread: op.Thread, Filter: &kjob.FilterSpec{Policy: c09Policy(op), NNP: op.NNP, Flag: op.Flag, HostArch: true}})
 		}
@@ -284,6 +322,56 @@ func checkC09(raw json.RawMessage) (ev.Result, error) {
 			if k > 0 {
 				res.Classes = append(res.Classes, "supported-after-a-load")
 			}
+		case "nested-load":
+			le, ie := rr.Find(opAt[k], "load"), rr.Find(opAt[k], "inner-load")
+			if len(le) != 1 {
+				return res, ev.Inconclusivef("load event missing")
+			}
+			if le[0].Panic != "" || len(ie) == 1 && ie[0].Panic != "" {
+				return res, fmt.Errorf("LoadFilter panicked: %s", le[0].Panic)
+			}
+			if len(ie) != 1 {
+				return res, ev.Inconclusivef("the outer load never reached the point between preparation and installation (%s)", le[0].Err)
+			}
+			in := op
+			in.Denied = op.Denied2
+			desc := fmt.Sprintf("step %d: load on thread %d (denying %v), and while it was under way a complete load on thread %d (denying %v), nnp=%v, no flags, uid %d",
+				k, op.Thread, deniedVector(op), op.Thread2, deniedVector(in), op.NNP, c.Uid)
+			for _, x := range []struct {
+				th   int
+				ld   kjob.Event
+				want []bool
+				who  string
+			}{{op.Thread, le[0], deniedVector(op), "interrupted"}, {op.Thread2, ie[0], deniedVector(in), "interrupting"}} {
+				before, after := prev.st[x.th], cur.st[x.th]
+				attached := after.Filters == before.Filters+1
+				if after.Filters != before.Filters && !attached {
+					return res, fmt.Errorf("%s: Seccomp_filters of the %s thread went from %d to %d", desc, x.who, before.Filters, after.Filters)
+				}
+				if x.ld.Nil && !attached {
+					return res, fmt.Errorf("%s: the %s load returned nil, but no filter was attached to its thread", desc, x.who)
+				}
+				want := append([]bool(nil), prev.denied[x.th]...)
+				if attached {
+					for j := range want {
+						want[j] = want[j] || x.want[j]
+					}
+				}
+				if fmt.Sprint(cur.denied[x.th]) != fmt.Sprint(want) {
+					return res, fmt.Errorf("%s: the %s load returned nil=%v (attached=%v), the decisions on its thread are %v, its own policy together with what was in force before demands %v",
+						desc, x.who, x.ld.Nil, attached, cur.denied[x.th], want)
+				}
+				if attached {
+					res.Classes = append(res.Classes, "overlapping-loads:"+x.who+"-attached")
+				} else {
+					sawRefusal = true
+				}
+			}
+			for i := 0; i < c.Threads; i++ {
+				if i != op.Thread && i != op.Thread2 && (!c09SnapEqual(prev.st[i], cur.st[i]) || fmt.Sprint(prev.denied[i]) != fmt.Sprint(cur.denied[i])) {
+					return res, fmt.Errorf("%s changed the uninvolved thread %d: %+v -> %+v", desc, i, prev.st[i], cur.st[i])
+				}
+			}
 		case "load":
 			le := rr.Find(opAt[k], "load")
 			if len(le) != 1 {
@@ -354,6 +442,9 @@ func checkC09(raw json.RawMessage) (ev.Result, error) {
 			}
 			// attached
 			res.Classes = append(res.Classes, "attached")
+			if op.Kind == "allow-only" || op.Kind == "log-only" {
+				res.Classes = append(res.Classes, "attached:policy-that-denies-nothing")
+			}
 			if !ld.Nil {
 				res.Classes = append(res.Classes, "attached-but-error-returned(no-claim)")
 			}
